@@ -19,34 +19,34 @@ static bool write_file(const std::string& p, const std::string& s) { std::ofstre
 
 struct PropInfo { const char* id; const char* level; unsigned long long quick_runs, thorough_runs; const char* rule; const char* explanation; };
 static const PropInfo kProps[] = {
-    {"C03", "exploration", 40000, 1500000,
+    {"C03", "exploration", 100000, 1500000,
      "one case = one generated text (grammar-directed, seeded byte mutation); for it EVERY split point is parsed from a private exact copy and from 5-7 other placements/entry points (mid-buffer with adversarial continuation, NUL-terminated, state-based, custom manager) and compared; every allocation-failure position of the full parse is tried. evaluations = simulated parses; distinct_nontrivial = distinct texts for which at least one variant comparison ran",
      ""},
-    {"C05", "fault_enumeration", 100000, 4000000,
+    {"C05", "fault_enumeration", 1000000, 12000000,
      "one case = one URI object built by a seeded history (parse/resolve/relativize/normalize/make-owner chains); fault = the caller's buffer ending at character k: EVERY capacity from -2 to required+3, with and without charsWritten. evaluations = uriToString calls; distinct_nontrivial = distinct recomposed texts whose capacities were enumerated",
      ""},
-    {"C07", "exploration", 400000, 15000000,
+    {"C07", "exploration", 2000000, 20000000,
      "one case = one seeded history of 3..14 chained operations over a pool of URI objects; every object produced is checked at once (structure, recompose, re-parse, component comparison). distinct_nontrivial = distinct (op-kind sequence, object digests) among histories in which at least one checked object came from a chain of >= 2 operations",
      ""},
-    {"C11", "exploration", 200000, 8000000,
+    {"C11", "exploration", 800000, 10000000,
      "one case = one seeded history plus near-duplicate parses; at its end every ordered pair of live objects, every object against NULL and against the re-parse of its own text is compared. distinct_nontrivial = distinct pools (op-kind sequence + object digests) with more than one pair compared",
      ""},
-    {"C12", "exploration", 150000, 6000000,
+    {"C12", "exploration", 450000, 6000000,
      "one case = one seeded history ending in an ownership operation (make-owner or normalize with mask != 0) followed by further operations; fault = source_loss (every text buffer the owner ever borrowed from is overwritten and made unreadable) enumerated at EVERY later position of the history, each compared with the loss-free run. distinct_nontrivial = distinct (history, digests) in which the loss actually fired",
      ""},
-    {"C13", "exploration", 500000, 20000000,
+    {"C13", "exploration", 1500000, 20000000,
      "one case = one fault-free seeded history over 1..3 managers (null/libc via interposed allocator, 5-function custom, completed-from-malloc/free, incomplete with any of 31 masks). distinct_nontrivial = distinct (op sequence, manager kinds, outcomes) with at least one allocation and two executed operations",
      ""},
-    {"C14", "fault_enumeration", 200000, 1500000,
+    {"C14", "fault_enumeration", 600000, 3000000,
      "one case = one seeded history with a target operation; the target's allocation request count N is measured fault-free, then EVERY k in 1..N is failed in fail-once and fail-from-k modes (plus seeded subsets), each on a freshly re-executed history. evaluations = simulated runs (trials); distinct_nontrivial = distinct (history, target result, k, mode) in which the injected failure actually fired",
      ""},
-    {"C15", "exploration", 60000, 2400000,
+    {"C15", "exploration", 80000, 2400000,
      "one case = one seeded history of 1..40 allocator calls (malloc/calloc/realloc/reallocarray/free/self-test) with sizes including 0 and values near SIZE_MAX over <= 8 live handles on a manager completed from a malloc/free-only simulated backend, half of the histories with backend failures; checked call by call against a reference model and the backend ledger. distinct_nontrivial = distinct (call-kind, size-class, liveness) sequences of length >= 2",
      ""},
-    {"C17", "exploration", 200000, 8000000,
+    {"C17", "exploration", 1000000, 12000000,
      "one case = one seeded key/value list (code points 1..255, biased to & = + % space CR LF) composed at EVERY capacity from -1 to required+2, dissected with matching options on one of three managers and compared with the model; or a raw query string dissected, composed and dissected again; or an allocation-failure sweep of dissect/compose-malloc; plus 10 fixed INT_MAX cases on a mirror-mapped 360M-character string. distinct_nontrivial = distinct (op sequence, composed texts) with a round-trip comparison",
      ""},
-    {"C20", "exploration", 100000, 4000000,
+    {"C20", "exploration", 1000000, 12000000,
      "one case = one world (two shared read-only URIs, a shared query list, 2..6 tasks each running 1..6 public calls on private outputs) executed once sequentially and once under a seeded schedule (round-robin at allocator calls / 1-3 random change points / random walk) with switches only inside library calls. distinct_nontrivial = distinct complete control-transfer sequences with more than one preemption",
      ""},
 };
